@@ -8,6 +8,8 @@ import (
 	"go/ast"
 	"go/token"
 	"go/types"
+	"os"
+	"sort"
 	"strings"
 )
 
@@ -835,6 +837,35 @@ func (c *ExecCtx) dryRun(st *State, body func(*State) []*State) *recorder {
 }
 
 // havocRec replaces everything recorded as modified by fresh values.
+// havocWhole forgets everything recorded as modified, without any precision.
+func (c *ExecCtx) havocWhole(st *State, rec *recorder) {
+	u := c.u
+	for obj := range rec.vars {
+		cur, ok := st.vars[obj]
+		if !ok || cur.Sort == "BOX" {
+			continue
+		}
+		t := u.fresh("w_"+obj.Name(), cur.Sort)
+		st.vars[obj] = t
+		c.typeFacts(st, t, obj.Type())
+	}
+	for h := range rec.heaps {
+		cur, ok := st.heaps[h]
+		if !ok {
+			cur = u.initHeap[h]
+		}
+		if cur == nil {
+			continue
+		}
+		st.heaps[h] = u.fresh("w_"+h, cur.Sort)
+	}
+	for g := range rec.ghost {
+		if cur, ok := st.ghost[g]; ok {
+			st.ghost[g] = u.fresh("wg_"+g, cur.Sort)
+		}
+	}
+}
+
 var allocAtEntry = map[*State]*Term{}
 
 func (c *ExecCtx) havocRec(st *State, rec *recorder) {
@@ -966,7 +997,37 @@ func (c *ExecCtx) runLoop(st *State, node ast.Node, label string, ls *LoopSpec, 
 		}
 		return outs
 	}
-	rec := c.dryRun(st, iter)
+	rec1 := c.dryRun(st, iter)
+	// Second dry run from a state in which everything the loop modifies is
+	// already arbitrary: only then do the recorded object references tell
+	// which writes go to loop-invariant objects (a reference read through a
+	// loop-carried variable is different in later iterations).
+	h0 := st.fork()
+	start2 := u.eng.nsym
+	c.havocWhole(h0, rec1)
+	rec := c.dryRun(h0, iter)
+	rec.startSym = start2
+	for k := range rec1.vars {
+		rec.vars[k] = true
+	}
+	for k := range rec1.heaps {
+		rec.heaps[k] = true
+		if _, ok := rec.refs[k]; !ok {
+			rec.whole[k] = true
+		}
+	}
+	for k := range rec1.ghost {
+		rec.ghost[k] = true
+	}
+	for k := range rec1.whole {
+		rec.whole[k] = true
+	}
+	for k := range rec1.fullVar {
+		rec.fullVar[k] = true
+	}
+	for k := range rec1.elemOnly {
+		rec.elemOnly[k] = true
+	}
 
 	evalInvMode := false
 	evalInv := func(s *State, oldS *State) []struct {
@@ -1010,6 +1071,41 @@ func (c *ExecCtx) runLoop(st *State, node ast.Node, label string, ls *LoopSpec, 
 		h.assumeT(iv.t)
 	}
 	evalInvMode = false
+	// automatic frame invariant for functions with an explicit modifies clause
+	var frameHeaps []string
+	var frameAllowed map[string][]*Term
+	if c.spec != nil && c.depth == 0 && c.spec.HasModifies && !c.spec.ModifiesAll && c.oldState != nil {
+		env := c.newEnv(nil, pos)
+		var all map[string]bool
+		frameAllowed, all = c.frameAllowed(env)
+		for hn := range rec.heaps {
+			if hn == "$alloc" || strings.HasPrefix(hn, "C.") || strings.HasPrefix(hn, "G.") || all[hn] {
+				continue
+			}
+			// only heaps that had to be forgotten wholesale need the invariant
+			if cur, ok := h.heaps[hn]; !ok || cur.Op != "sym" || !strings.HasPrefix(cur.Name, "hh_") {
+				continue
+			}
+			frameHeaps = append(frameHeaps, hn)
+		}
+		if os.Getenv("GOVC_DEBUG") != "" {
+			fmt.Fprintln(os.Stderr, "frame-inv", u.name, lkey, "rec.heaps", len(rec.heaps), "frameHeaps", frameHeaps)
+			for hn := range rec.heaps {
+				cur := h.heaps[hn]
+				fmt.Fprintln(os.Stderr, "   ", hn, cur)
+			}
+		}
+		sort.Strings(frameHeaps)
+		for _, hn := range frameHeaps {
+			// holds at the loop head: checked on entry, assumed for the arbitrary iteration
+			if cur, ok := st.heaps[hn]; ok {
+				u.oblige(st, "frame.inv", c.frameFormula(hn, cur, frameAllowed), pos, "loop "+lkey+" frame on entry: "+hn)
+			}
+			if cur, ok := h.heaps[hn]; ok {
+				h.assumeT(c.frameFormula(hn, cur, frameAllowed))
+			}
+		}
+	}
 	var decBefore *Term
 	if ls != nil && ls.Decreases != nil {
 		decBefore = u.define(h, "variant", c.specInt(h, c.oldState, *ls.Decreases, pos, binds))
@@ -1046,6 +1142,11 @@ func (c *ExecCtx) runLoop(st *State, node ast.Node, label string, ls *LoopSpec, 
 		}
 		for _, iv := range evalInv(o, c.oldState) {
 			u.oblige(o, "inv.step", iv.t, pos, fmt.Sprintf("loop %s invariant preserved: %s", lkey, iv.src))
+		}
+		for _, hn := range frameHeaps {
+			if cur, ok := o.heaps[hn]; ok {
+				u.oblige(o, "frame.inv", c.frameFormula(hn, cur, frameAllowed), pos, "loop "+lkey+" frame preserved: "+hn)
+			}
 		}
 		if decBefore != nil {
 			after := c.specInt(o, c.oldState, *ls.Decreases, pos, binds)
